@@ -51,5 +51,6 @@ def _setup_round(eng, st):
 
 CONTRACTS['teachers_round'] = Contract(
     MISC, 'teachers_round', ['x'], setup=_setup_round,
-    ensures=[('round-half-away-from-zero',
-              "result() == (int(x + 0.5) if x >= 0 else -int(-x + 0.5))")])
+    # declarative: the nearest integer, and on an exact half the one farther from zero (this determines the result uniquely)
+    ensures=[('nearest-integer', "And(result() >= x - 0.5, result() <= x + 0.5)"),
+             ('half-rounds-away-from-zero', "And(implies(result() - x == 0.5, x > 0), implies(x - result() == 0.5, x < 0))")])
